@@ -133,6 +133,7 @@ func cmdCheck(args []string) (exit int) {
 		for k, v := range runControls(*verif, abs, *prop) {
 			extra[k] = v
 		}
+		extra["mutation_sensitivity"] = runSensitivity(*verif, abs, *prop)
 	}
 	return c.Finish(*verif, d.Meta, seed, extra)
 }
@@ -296,4 +297,17 @@ func cmdSweep(args []string) int {
 	b, _ := json.Marshal(out)
 	fmt.Println(string(b))
 	return 0
+}
+
+// runSensitivity samples single-site mutants of the property's anchor files
+// and reports how many this property's rules notice (sweep/sensitivity.py).
+func runSensitivity(verifDir, repo, prop string) interface{} {
+	cmd := exec.Command("python3", filepath.Join(verifDir, "sweep", "sensitivity.py"), prop, "--repo", repo, "-n", "120", "-j", "8")
+	cmd.Env = os.Environ()
+	out, err := cmd.Output()
+	var v interface{}
+	if err != nil || json.Unmarshal(out, &v) != nil {
+		return "could not run: " + tail(string(out), 200)
+	}
+	return v
 }
